@@ -11,6 +11,8 @@ Srcs == UNION {[1..n -> 1..K] : n \in 0..MaxSrc}
 Reruns(wr, nb) == IF wr = "cli"
                   THEN <<[nbuf |-> (nb % 3) + 1, delivery |-> "file", sched |-> "natural"], [nbuf |-> 8, delivery |-> "pipe", sched |-> "natural"],
                          [nbuf |-> 2, delivery |-> "fifo", sched |-> "natural"], [nbuf |-> 3, delivery |-> "file", sched |-> "jitter"]>>
+                       \* "in every run": default buffering on one CPU (nbuf 0 = option absent); more than a second later under another time zone / locale / home
+                       \o (IF nb = 1 THEN <<[nbuf |-> 0, delivery |-> "file", sched |-> "onecpu"]>> ELSE IF nb = 2 THEN <<[nbuf |-> 0, delivery |-> "pipe", sched |-> "later"]>> ELSE <<>>)
                   ELSE <<[nbuf |-> (nb % 3) + 1, delivery |-> "file", sched |-> "natural"], [nbuf |-> 64, delivery |-> "pipe", sched |-> "natural"]>>
 IdScen == {[writer |-> wr, nbuf |-> nb, src |-> s, bs |-> 64, ctype |-> 0, hl |-> 64, meta |-> 0, delivery |-> "file", transport |-> "local",
             sched |-> "natural", reruns |-> Reruns(wr, nb)] : wr \in {"lib", "cli"}, nb \in {1, 2, 3}, s \in Srcs}
